@@ -1,4 +1,4 @@
-"""C03 — orbits, cell ids and cell iterators agree with the orbit definition (2-D part; 3-D hook below)."""
+"""C03 — orbits, cell ids and cell iterators agree with the orbit definition (2-D: theorems + tie; 3-D: tie + oracle)."""
 import random
 
 import gens
@@ -51,10 +51,18 @@ SPEC = {
             "observations on every dart. Oracle on the implementation's answers with cells recomputed in Python from the `snap` line "
             "(closure under images and inverses): starts with the dart, no duplicate, no 0, set = forward closure, = the cell for v/e/f, "
             "= the cell for vl/fl on closed cells, ids = cell minimum, equal ids iff same cell, iterators = sorted distinct ids of in-use "
-            "darts, transactional answers = plain answers. distinct_nontrivial = distinct implementation output transcripts.",
+            "darts, transactional answers = plain answers. 3-D (CMap3): every WF 3-map with n<=3 (quick; n<=4 thorough) darts, removed "
+            "darts included, x every dart 0..n+1 x policies v vl e f fl vol voll c10 c01 c23 c3 c0123 c4 through orbit_transac and "
+            "orbit, the four ids through *_id_transac and *_id, the four iterators; the glued-faces family (closed and open faces of "
+            "<=4 sides, fresh and after random link/sew/unlink/unsew/remove/insert calls); pairs of polyhedra (glued or not) with "
+            "faces opened by 1-unlinks and edges opened by 2-unlinks; same oracle with the 3-D generator sets of dim3/orbits.rs, "
+            "restricted as the property says (see not_proved), plus on every map: iter_* = in-use darts that are their own id. "
+            "distinct_nontrivial = distinct implementation output transcripts.",
     "not_proved": [
         "3-D clauses of C03 (orbit3, vertex/edge/face/volume ids of CMap3, the two-sided face_id walk, iter_volumes): no theorem yet; they "
-        "are validated by correspondence only once tools/props/c03.py gets a 3-D stream (hook `streams3d`, currently empty)",
+        "are supported by the hcmodel/hcimpl correspondence (every 3-D case) and by the Python oracle `oracle_c03_3d` (streams3d), which "
+        "claims the vertex clauses only on maps whose 3-glued faces are closed and mirrored, the face-id clause only on closed faces "
+        "(mirrored when glued), and the linear policies only on closed cells; outside these restrictions correspondence only",
         "that Rust's non-transactional `orbit` iterator and `*_id` wrappers coincide with the transactional code is a fact about the code "
         "(correspondence + oracle), the model has a single program for both",
     ],
